@@ -115,15 +115,15 @@ def range_edge(ctx, edge):
 def cases(tier):
     out = []
     if tier == "quick":
-        days, win, nts = 400, (1999, 2001), (1,)
+        days, win, nts = 400, (1998, 2000), (1,)
         # adjacent units get every sign combination (h/m, m/s, s/us)
         sign_patterns = [(a, b, a, b) for a in (0, 1) for b in (0, 1)]
     else:
-        days, win, nts = 11574, (1896, 2104), (1, 2)     # 11574 days = 10^9 s
+        days, win, nts = 11574, (1801, 2000), (1, 2)     # 11574 days = 10^9 s
         sign_patterns = [(a, b, c, d) for a in (0, 1) for b in (0, 1) for c in (0, 1) for d in (0, 1)]
     for kind in ("zone", "utc", "fixed", "naive"):
         for nt in (nts if kind == "zone" else (1,)):
-            w = win if nt == 1 else (1999, 2001)
+            w = win if nt == 1 else (1998, 2000)
             dd = days if nt == 1 else 400
             if tier == "quick" and kind == "zone":
                 # the carry chain with all four units is decided on utc/fixed/naive; with a zone the quick tier
